@@ -348,6 +348,26 @@ func checkSchema(p *core.Program, r *core.Report, roles *Roles, fn *ssa.Function
 		return nil, false
 	}
 	loops := core.Loops(fn)
+	// a rejected word is redrawn: every loop of the routine draws a fresh word each time
+	// round (a retry loop without a draw spins for ever once a word is rejected, so
+	// selection no longer terminates with probability one)
+	for _, l := range loops {
+		drawn := false
+		for _, c := range roles.RawCalls[fn] {
+			if l.Blocks[c.Block()] {
+				uncond := true
+				for _, la := range l.Latch {
+					if !c.Block().Dominates(la) {
+						uncond = false
+					}
+				}
+				if uncond {
+					drawn = true
+				}
+			}
+		}
+		r.Check(drawn, r13, name, "the retry loop draws a fresh raw word on every iteration", p.InstrPos(l.Header.Instrs[0]), "no raw-word call that runs on every trip round the loop")
+	}
 	rets := core.Returns(fn)
 	if len(rets) == 0 {
 		r.Unrecognised(r13, name, "no return", pos, "bounded-draw function never returns")
